@@ -227,13 +227,15 @@ pub fn scenarios(tier: Tier) -> Vec<Scenario> {
     };
     use Kind::*;
     if tier.is_quick() {
-        add(P { routes: vec![], stop: Stop::Shutdown(1), racing_add: false }, 2);
-        add(P { routes: vec![(Callback, true)], stop: Stop::Shutdown(1), racing_add: false }, 2);
-        add(P { routes: vec![(Crossbeam, false), (Callback, false)], stop: Stop::Shutdown(1), racing_add: true }, 1);
-        add(P { routes: vec![(Callback, true)], stop: Stop::Shutdown(2), racing_add: false }, 1);
-        add(P { routes: vec![(Callback, true), (Crossbeam, true)], stop: Stop::DropProxy, racing_add: false }, 2);
-        add(P { routes: vec![], stop: Stop::DropProxy, racing_add: false }, 2);
-        add(P { routes: vec![(Callback, false)], stop: Stop::DropProxy, racing_add: true }, 1);
+        add(P { routes: vec![], stop: Stop::Shutdown(1), racing_add: false }, 3);
+        add(P { routes: vec![(Callback, true)], stop: Stop::Shutdown(1), racing_add: false }, 3);
+        add(P { routes: vec![(Crossbeam, true)], stop: Stop::Shutdown(1), racing_add: true }, 2);
+        add(P { routes: vec![(Crossbeam, false), (Callback, false)], stop: Stop::Shutdown(1), racing_add: true }, 2);
+        add(P { routes: vec![(Callback, true)], stop: Stop::Shutdown(2), racing_add: false }, 2);
+        add(P { routes: vec![(Callback, true), (Crossbeam, true)], stop: Stop::DropProxy, racing_add: false }, 3);
+        add(P { routes: vec![], stop: Stop::DropProxy, racing_add: false }, 3);
+        add(P { routes: vec![(Callback, false)], stop: Stop::DropProxy, racing_add: true }, 2);
+        add(P { routes: vec![(Callback, true), (Callback, false)], stop: Stop::Shutdown(2), racing_add: true }, 1);
     } else {
         let route_sets: Vec<Vec<(Kind, bool)>> = vec![
             vec![],
